@@ -58,6 +58,28 @@ def check(ctx):
     ctx.traces_validated += len(got)
     if cases:
         ctx.sample({"binding": "A", "case": cases[len(cases) // 2]})
+    # ---- the same cases on a 32-bit build (GOARCH=386: int and uint are 32 bits wide)
+    try:
+        drv32 = ctx.go_build_test("reader", ["reader/reader_verif_test.go"], goarch="386", drop_own_tests=True)
+    except vlib.Infra as e:
+        drv32 = None
+        ctx.assumptions.append("the 32-bit build of the reader driver could not be made here: %s" % str(e)[:200])
+    if drv32:
+        cout32 = os.path.join(d, "out32.ndjson")
+        rc, out, to = ctx.go_run(drv32, "TestVerifReaderCases", env={"VERIF_CASES": cin, "VERIF_OUT": cout32}, timeout=300)
+        got32 = vlib.read_ndjson(cout32) if os.path.exists(cout32) else []
+        if to or (rc != 0 and not got32):
+            ctx.assumptions.append("32-bit test binaries do not run in this sandbox (reader)")
+        else:
+            if rc != 0 and len(got32) < len(cases):
+                ctx.violation("(built for GOARCH=386) reader driver crashed on case: " + out[-600:], cases[len(got32)])
+            for c, g in zip(cases, got32):
+                ctx.count(["386", c["buf"], c["pos"], c["res"]["op"], c["res"]["n"]], nontrivial=c["res"]["op"] != "obs")
+                why = compare_case(c, g)
+                if why:
+                    ctx.violation("(built for GOARCH=386) reader.%s(n=%d) at position %d of a %d-octet buffer: %s"
+                                  % (c["res"]["op"], c["res"]["n"], c["pos"], len(c["buf"]), why), c, key="386:" + c["res"]["op"])
+            ctx.extra["cases_on_386_build"] = len(got32)
     # ---- readers side by side (each worker of the collector has its own): 8 goroutines, own reader, own buffer, race detector
     drvr = ctx.go_build_test("reader", ["reader/reader_verif_test.go"], race=True)
     pout = os.path.join(d, "parallel.json")
